@@ -7,16 +7,18 @@
 (d) pointer parameters that the function family checks for NULL are not dereferenced unchecked
 (e) scanf-family %s / %[ conversions carry a width smaller than the destination extent
 (f) allocation size agrees with what is written through the fresh pointer (memcpy sizes)"""
+import os
+from fractions import Fraction
 import re
 
 from xvlib.core import Check
 from xvlib.frontend import AnalysisBroken
-from xvlib.absint import Inconclusive
+from xvlib.absint import Inconclusive, Interval
 from xvlib.errstate import Summaries, error_param, outcome
 from xvlib.resources import ResourceModel, res_syms
 from xvlib.coverage import DataFacts, GUARD_TABLES
 from xvlib.facts import walk, show, strip_casts, calls_in
-from xvlib.normform import Rat, NotInClass
+from xvlib.normform import Rat, NotInClass, subst
 
 SKIP = ('CompoundParserSimple', 'add_compound_data')
 
@@ -110,10 +112,73 @@ def run(prog, tier):
     subs = {}
     derefs = {}
 
+    heap = {}
+    sizeof_bytes = {}
+    for f_ in prog.src_funcs():
+        for n_ in walk(f_['body']):
+            if n_.get('k') == 'UnaryExprOrTypeTraitExpr' and isinstance(n_.get('v'), int):
+                sizeof_bytes.setdefault(n_.get('argT'), n_['v'])
+
+    def constval(sym):
+        # byte sizes the compiler folded; values of const-qualified scalar globals
+        m_ = re.match(r'^sizeof\((.+)\)$', sym)
+        if m_ and m_.group(1) in sizeof_bytes:
+            return Rat.const(sizeof_bytes[m_.group(1)])
+        if re.match(r'^\w+$', sym):
+            g = prog.global_def(sym, required=False)
+            if g and g.get('const') and isinstance(g.get('init'), dict) and isinstance(g['init'].get('v'), int):
+                return Rat.const(g['init']['v'])
+        return None
+
+    def on_heap(node, st, it, write):
+        # (a2) subscript on a block this very path obtained from malloc/calloc: (index + 1) elements must fit into the requested size
+        base = strip_casts(node['c'][0])
+        bt = (base.get('T') or '').replace('const ', '').strip()
+        if not bt.endswith('*'):
+            return
+        elem = re.sub(r'\s+', ' ', bt[:-1]).strip()
+        try:
+            bv = it.eval(base, st)
+        except NotInClass:
+            return
+        al = None
+        for e in st.events:
+            if e.kind == 'call' and e.name in ('malloc', 'calloc') and e.result is not None and e.result.canon() == bv.canon():
+                al = e
+        if al is None or any(a is None for a in al.args):
+            return
+        size = al.args[0] if al.name == 'malloc' else al.args[0] * al.args[1]
+        key = (it.func['name'], node['ln'], node.get('col'))
+        try:
+            idx = it.eval(node['c'][1], st)
+            room = size - (idx + Rat.const(1)) * Rat.sym('sizeof(%s)' % elem)
+            # the byte sizes the compiler folded and the values of const-qualified scalar globals
+            env = {x: constval(x) for x in room.n.symbols() | idx.n.symbols() if constval(x) is not None}
+            iv = it.interval_of(idx, st)
+            if iv.lo is None and env:
+                iv = it.interval_of(subst(idx, env), st)
+            ok = iv.lo is not None and iv.lo >= 0 and (nonneg(it, st, room) or nonneg_split(it, st, room, constval))
+            if not ok and iv.lo is not None and iv.lo >= 0 and env:
+                room2 = subst(room, env)
+                ok = nonneg(it, st, room2) or nonneg_split(it, st, room2, constval)
+            if os.environ.get('XV_DEBUG_HEAP') and not ok:
+                print('HEAP', it.func['name'], show(node), 'idx', idx.canon(), iv, 'room', room.canon(), 'env', {k: v.canon() for k, v in env.items()},
+                      [(k, str(v)) for k, v in st.facts.items() if any(x in k for x in idx.n.symbols())][:6])
+            txt = 'index %s, block of %s bytes' % (idx.canon()[:50], size.canon()[:70])
+        except NotInClass:
+            ok, txt = False, 'index not analysable'
+        prev = heap.get(key)
+        if prev is None:
+            heap[key] = [ok, show(node)[:70], txt, write, al.node['ln']]
+        elif not ok and prev[0]:
+            heap[key] = [False, show(node)[:70], txt, write, al.node['ln']]
+
     def on_sub(node, st, it, write=False):
         base = node['c'][0]
         ext = extent_of(base)
         if ext is None or ext < 0:
+            if ext is None:
+                on_heap(node, st, it, write)
             return
         try:
             idx = it.eval(node['c'][1], st)
@@ -188,6 +253,12 @@ def run(prog, tier):
                    '%s %s with an index the analysis bounds to [%s, %s]; the object has %d elements' % (
                        'writes' if write else 'reads', txt, lo, hi, ext), why='index in [%s, %s] within [0, %d] by %s' % (lo, hi, ext - 1, why))
     chk.floor('subscripts on fixed-extent objects', len(subs), 150)
+    for (fn, ln, col), (ok, txt, detail, write, aln) in sorted(heap.items()):
+        f = summ.funcs[fn]
+        chk.decide(ok, 'store-within-allocation', f['unit'], fn, '%s block@%d' % (txt, aln), '%s:%d' % (f['rel'], ln),
+                   '%s %s, an element of the block allocated at line %d, but the element is not established to lie inside it (%s)' % (
+                       'writes' if write else 'reads', txt, aln, detail), why='0 <= index and (index + 1) * sizeof(element) <= allocated size on every path')
+    chk.floor('subscripts on blocks allocated on the same path', len(heap), 1)
 
     # ---- (c) resources -------------------------------------------------------------------------
     rm = ResourceModel(summ)
@@ -367,9 +438,80 @@ def run(prog, tier):
                                    'memcpy writes %s bytes into a block allocated with %s bytes' % (e.args[2].canon()[:80], size.canon()[:80]),
                                    why='copied size equals the allocated size')
     chk.floor('memcpy into fresh allocations', nm, 12)
+    allocation_sizes(prog, chk, summ)
     spline_rows(prog, chk, tier)
     destructors(prog, chk)
     return chk
+
+
+def allocation_sizes(prog, chk, summ):
+    """(f2) every malloc/calloc/realloc whose result becomes a T* (T not a character type) asks for a whole number of T objects: the
+    size is a sum of products that each contain sizeof(T).  `n + k * sizeof(T)` (lost parentheses) or `n * sizeof(U)` for another U
+    sizes the block in the wrong unit, and the element stores that follow run past it."""
+    def strip(n):
+        while isinstance(n, dict) and n.get('k') in ('ParenExpr', 'ImplicitCastExpr', 'CStyleCastExpr') and n.get('c'):
+            n = n['c'][0]
+        return n
+
+    def norm_t(t):
+        return re.sub(r'\s+', ' ', (t or '').replace('const ', '')).strip()
+
+    def whole(n, T):
+        n = strip(n)
+        k = n.get('k')
+        if k == 'UnaryExprOrTypeTraitExpr':
+            return norm_t(n.get('argT')) == T
+        if k == 'BinaryOperator' and n.get('op') == '*':
+            return whole(n['c'][0], T) or whole(n['c'][1], T)
+        if k == 'BinaryOperator' and n.get('op') in ('+', '-'):
+            return whole(n['c'][0], T) and whole(n['c'][1], T)
+        return False
+
+    n_sites = 0
+    for f in prog.src_funcs():
+        if not f['unit'].startswith('src/'):
+            continue
+
+        def rec(node, parents):
+            nonlocal n_sites
+            if isinstance(node, list):
+                for v in node:
+                    rec(v, parents)
+                return
+            if not isinstance(node, dict):
+                return
+            if node.get('k') == 'CallExpr' and node.get('callee') in ('malloc', 'calloc', 'realloc'):
+                # the first enclosing node that gives the block a pointer type other than void *
+                T = None
+                for par in reversed(parents):
+                    t = norm_t(par.get('T') or (par.get('var') or {}).get('T') if isinstance(par.get('var'), dict) else par.get('T'))
+                    if par.get('k') in ('ParenExpr', 'ImplicitCastExpr') and t in ('void *', ''):
+                        continue
+                    if t.endswith('*') and t != 'void *':
+                        T = norm_t(t[:-1])
+                    break
+                a = node['args']
+                size = {'malloc': a[:1], 'realloc': a[1:2], 'calloc': a[:2]}[node['callee']]
+                if T is not None and T not in ('char', 'unsigned char', 'signed char', 'void'):
+                    n_sites += 1
+                    ok = any(whole(x, T) for x in size) if node['callee'] == 'calloc' else whole(size[0], T)
+                    if not ok and f['name'] in summ.paths:
+                        # the size may be held in a variable: take its value on every analysed path that reaches the call
+                        evs = [e for p_ in summ.paths[f['name']] for e in p_.events if e.kind == 'call' and e.node is node]
+                        def poly_whole(r):
+                            return r is not None and r.d.is_const() and bool(r.n.monomials()) and \
+                                all(any(x == 'sizeof(%s)' % T for x, _ in mono) for mono in r.n.monomials())
+                        idx = {'malloc': [0], 'realloc': [1], 'calloc': [0, 1]}[node['callee']]
+                        ok = bool(evs) and all(any(poly_whole(e.args[i]) for i in idx if i < len(e.args)) for e in evs)
+                    chk.decide(ok, 'allocation-whole-elements', f['unit'], f['name'], '%s@%d -> %s *' % (node['callee'], node['ln'], T),
+                               '%s:%d' % (f['rel'], node['ln']),
+                               'the block becomes a %s * but its size %s is not a whole number of sizeof(%s): every term of the size must carry that factor' % (
+                                   T, ' x '.join(show(x)[:70] for x in size), T), why='size is a multiple of sizeof(%s)' % T)
+            for k_, v in node.items():
+                if isinstance(v, (dict, list)) and k_ != 'T':
+                    rec(v, parents + [node])
+        rec(f['body'], [])
+    chk.floor('typed allocation sites', n_sites, 60)
 
 
 def destructors(prog, chk):
@@ -428,6 +570,97 @@ def nonneg(it, p, d, depth=0):
                 rest = d - k_
                 if len(rest.n.symbols()) < len(syms):
                     return nonneg(it, p, rest, depth + 1)
+    return False
+
+
+def _parse_linear(key):
+    """Rat of a canonical key string that is a sum of (coefficient *) products of atoms; None when it is anything else."""
+    def split(txt, sep):
+        out, depth, cur, i = [], 0, '', 0
+        while i < len(txt):
+            ch = txt[i]
+            if ch in '([':
+                depth += 1
+            elif ch in ')]':
+                depth -= 1
+            if depth == 0 and txt.startswith(sep, i):
+                out.append(cur)
+                cur = ''
+                i += len(sep)
+                continue
+            cur += ch
+            i += 1
+        out.append(cur)
+        return out
+    total = Rat.const(0)
+    for term in split(key, ' + '):
+        r = Rat.const(1)
+        for fac in split(term, '*'):
+            fac = fac.strip()
+            if re.match(r'^-?\d+(/\d+)?$', fac):
+                r = r * Rat.const(Fraction(fac))
+            elif fac and '^' not in fac and not fac.startswith('('):
+                r = r * Rat.sym(fac)
+            else:
+                return None
+        total = total + r
+    return total
+
+
+def nonneg_split(it, p, d, env=None, depth=0):
+    """d >= 0 by linear reasoning over the path's facts: divide out a common sizeof factor; then d = c * K + rest for a fact K in [lo, hi]
+    gives d >= c * lo + rest (c > 0) or c * hi + rest (c < 0); the array invariant n_alloc - n_crystal >= 0 counts as a fact.  `env`
+    holds values of const-qualified globals that facts may still mention by name."""
+    from xvlib.normform import Poly
+    if not d.d.is_const() or depth > 5:
+        return False
+    for s_ in sorted(d.n.symbols()):
+        if s_.startswith('sizeof(') and all(any(x == s_ for x, _ in mono) for mono in d.n.monomials()):
+            qt = {}
+            for mono, coef in d.n.monomials().items():
+                m2 = tuple((x, pw - 1) if x == s_ else (x, pw) for x, pw in mono)
+                qt[tuple((x, pw) for x, pw in m2 if pw)] = coef
+            d = Rat(Poly(qt), d.d)
+            break
+    iv = it.interval_of(d, p)
+    if iv.lo is not None and iv.lo >= 0:
+        return True
+    syms = d.n.symbols()
+    if not syms:
+        return False
+    cands = []
+    for s_ in sorted(syms):
+        if s_.endswith('.n_alloc'):
+            cands.append((Rat.sym(s_) - Rat.sym(s_[:-len('.n_alloc')] + '.n_crystal'), Interval(Fraction(0), None)))
+        siv = it.interval_of(Rat.sym(s_), p)
+        if siv.lo is not None or siv.hi is not None:
+            cands.append((Rat.sym(s_), siv))
+    for key, fiv in list(p.facts.items()):
+        if not any(x in key for x in syms):
+            continue
+        k = _parse_linear(key)
+        if k is None:
+            continue
+        kenv = {x: env(x) for x in k.n.symbols() if env and env(x) is not None}
+        if kenv:
+            k = subst(k, kenv)
+        if k.n.symbols():
+            cands.append((k, fiv))
+    lin = {m[0][0]: c for m, c in d.n.monomials().items() if len(m) == 1 and m[0][1] == 1}
+    for k, fiv in cands:
+        klin = {m[0][0]: c for m, c in k.n.monomials().items() if len(m) == 1 and m[0][1] == 1}
+        if not klin or any(len(m) > 1 or (m and m[0][1] != 1) for m in k.n.monomials()):
+            continue
+        for sym, kc in klin.items():
+            if sym not in lin:
+                continue
+            c = Fraction(lin[sym]) / Fraction(kc) / Fraction(d.d.const_value()) * Fraction(k.d.const_value())
+            bound = fiv.lo if c > 0 else fiv.hi
+            if bound is None:
+                continue
+            rest = d - k * Rat.const(c) + Rat.const(c * bound)
+            if len(rest.n.symbols()) <= len(syms) and nonneg_split(it, p, rest, env, depth + 1):
+                return True
     return False
 
 
